@@ -10,7 +10,7 @@ use crate::driver::{expected_obs, observe_response, RespObs};
 use crate::engine::{guarded, hex, show, unhex, Report, Tier, Violation};
 use crate::refmodel::head;
 
-pub const RULE: &str = "every head of the small-scope grammar: version {1.0,1.1} x status {101,200,204,299,301,302,304,307,399,404,500,999} x reason {none, empty, OK, 300-byte with obs-text} x all ordered field lists of length 0..=2 (thorough 0..=3) over a 13-entry pool (repeated names, no OWS, OWS both sides, empty value, obs-text, Location, Content-Length, Set-Cookie, Transfer-Encoding: chunked, two Connection spellings) plus heads with 0,1,127,128 (accepted) and 129,130,200 (rejected) fields; for every head EVERY prefix length and the head followed by {1 byte, garbage, a second response}; entry points Flow::try_response (GET flow, HEAD flow, POST flow with Expect: 100-continue whose caller gave up waiting, and the same flow after try_read_100 took the same window as a refusal and the body was skipped), Call::try_response, parser::try_parse_response::<128>; each prefix on a fresh object AND all prefixes in growing order on one object followed by the complete head. distinct = distinct (head, entry point) pairs whose every prefix was checked";
+pub const RULE: &str = "every head of the small-scope grammar: version {1.0,1.1} x status {101,200,204,299,301,302,304,307,399,404,500,999} x reason {none, empty, OK, 300-byte with obs-text} x all ordered field lists of length 0..=2 (thorough 0..=3) over a 15-entry pool (incl. a value with UTF-8 encoded Unicode white space at both ends and one with tabs inside) (repeated names, no OWS, OWS both sides, empty value, obs-text, Location, Content-Length, Set-Cookie, Transfer-Encoding: chunked, two Connection spellings) plus heads with 0,1,127,128 (accepted) and 129,130,200 (rejected) fields; for every head EVERY prefix length and the head followed by {1 byte, garbage, a second response, a stray CRLF, CRLF CRLF and a response}; entry points Flow::try_response (GET flow, HEAD flow, POST flow with Expect: 100-continue whose caller gave up waiting, and the same flow after try_read_100 took the same window as a refusal and the body was skipped), Call::try_response, parser::try_parse_response::<128>; each prefix on a fresh object AND all prefixes in growing order on one object followed by the complete head. distinct = distinct (head, entry point) pairs whose every prefix was checked";
 
 const FRONTS: [&str; 6] = ["flow-GET", "flow-HEAD", "call", "parser", "flow-POST-expect", "flow-POST-refused"];
 
@@ -234,7 +234,7 @@ fn incremental(h: &[u8], front: &str, bases: &Bases) -> Option<(String, String, 
     }
 }
 
-const TAILS: [&[u8]; 4] = [b"", b"X", b"garbage\x00\xff\r\n\r\n", b"HTTP/1.1 200 OK\r\nContent-Length: 0\r\n\r\n"];
+const TAILS: [&[u8]; 6] = [b"", b"X", b"garbage\x00\xff\r\n\r\n", b"HTTP/1.1 200 OK\r\nContent-Length: 0\r\n\r\n", b"\r\n", b"\r\n\r\nHTTP/1.1 200 OK\r\n\r\n"];
 
 fn check_head(h: &[u8], nfields: usize, bases: &Bases, ord: u64, rep: &mut Report, all_prefixes: bool) {
     for front in FRONTS {
